@@ -149,6 +149,7 @@ func runNBRandom(w *rt.World, res *hx.Result, kind int) *hx.Violation {
 				qn = []string{churnName}
 			}
 			idc += 1 + uint16(g.names[1]%3)
+			must := false
 			var b []byte
 			if shape := g.names[1] % 12; shape >= 1 && shape <= 5 && !churnQ && g.big != 0 {
 				b = buildVariedQuery(idc, shape, qn, uint16(g.names[2]%2)<<8)
@@ -162,9 +163,10 @@ func runNBRandom(w *rt.World, res *hx.Result, kind int) *hx.Violation {
 				if eb := buildExactSize(idc, target, qn[0]); eb != nil {
 					b = eb
 					rt.Probe(PExactSize)
+					must = (kind == 1 && target <= 1024) || (kind == 2 && target <= 576)
 				}
 			}
-			cl.reqs = append(cl.reqs, &nbReq{id: idc, bytes: b, sig: stripID(b), tcp: cl.tcp, churn: churnQ})
+			cl.reqs = append(cl.reqs, &nbReq{id: idc, bytes: b, sig: stripID(b), tcp: cl.tcp, churn: churnQ, mustAnswer: must})
 			cl.gaps = append(cl.gaps, g.gap)
 		}
 		if idc < idKeep {
@@ -185,6 +187,7 @@ func runNBRandom(w *rt.World, res *hx.Result, kind int) *hx.Violation {
 		}
 		clients = append(clients, cl)
 	}
+	quietUnanswered := ""
 	expUDP := map[string][]byte{}
 	expTCP := map[string][]byte{}
 	var churnUDP, churnTCPAns [][]byte // the answers to "query churn group" in every state of the churn cycle
@@ -241,11 +244,18 @@ func runNBRandom(w *rt.World, res *hx.Result, kind int) *hx.Violation {
 					}
 				} else if _, ok := expUDP[r.sig]; !ok {
 					expUDP[r.sig] = udpExchange(r.bytes, 3*time.Second)
+					if r.mustAnswer && expUDP[r.sig] == nil && quietUnanswered == "" {
+						quietUnanswered = fmt.Sprintf("a well-formed name query of %d bytes (not more than the server's receive buffer) sent alone to the quiescent server got no answer", len(r.bytes))
+					}
 				}
 			}
 		}
 	})
 	rt.Join(setup, -1)
+	if quietUnanswered != "" {
+		// an absolute check next to the differential oracle, which would otherwise learn "no answer" from the server
+		return &hx.Violation{Class: "no_response", Key: sysName + "/exact-size-quiescent", Msg: quietUnanswered}
+	}
 
 	// ---- concurrent phase with faults
 	w.Quiet = false
@@ -732,7 +742,12 @@ func tcpClient(cl *nbClient, window int) {
 			// a frame that cannot be a request: the server may drop the connection or skip exactly that frame
 			stream = append(stream, 0, byte(cl.runtLen))
 			for j := 0; j < cl.runtLen; j++ {
-				stream = append(stream, byte(0x0C+j))
+				// bytes that would pass for small length prefixes if a server took them for the start of a frame
+				if j%2 == 0 {
+					stream = append(stream, 0)
+				} else {
+					stream = append(stream, byte(0x0C+j/2))
+				}
 			}
 		}
 		var l [2]byte
